@@ -56,6 +56,12 @@ CHECKS = {
          "oracles: normal exit, no sanitizer report, no tracked block alive after the caller freed everything and the library shut down, pre-existing containers/objects unchanged, no double/foreign free. "
          "General rwlock / sim atomics constructors are covered by the asan-simgen variant. Fault enumeration is the right level: the quantifier is a finite fault index per scenario.",
     note="Only allocations that go through the PMemVTable are failed; scenarios are representative sequences, not all entry points in all states."),
+ "C19": dict(cat="fault_enumeration", ref="§3 C19",
+    technique="real signal storms (handler without SA_RESTART) around blocked calls + link-time (--wrap) EINTR injection at every k-th invocation of each blocking libc call, outcome oracles",
+    text="Blocked p_uthread_sleep / semaphore acquire / shm lock / blocking accept and receive run under SIGUSR1 storms and must keep their outcome (sleep >= requested and 0; acquire only after the release; "
+         "right bytes); EINTR is injected at call k (bursts 1..n) of clock_nanosleep, sem_wait, sem_open, shm_open, poll, connect, accept, recv, send, recvfrom, sendto and the same oracles plus exact semaphore "
+         "counter accounting (raw handle on the platform key) are applied; a case only counts when its signal/injection actually fired.",
+    note="Injection obeys each call's real contract (clock_nanosleep returns the error number). Finite storms only."),
 }
 
 NOT_YET = {}
